@@ -144,6 +144,7 @@ struct Listener {
     local: SocketAddr,
     queue: VecDeque<(u64, SocketAddr)>,
     waker: Option<Waker>,
+    accepts: u64,
 }
 
 #[derive(Default)]
@@ -1119,6 +1120,7 @@ impl TcpListener {
                     local: addr,
                     queue: VecDeque::new(),
                     waker: None,
+                    accepts: 0,
                 },
             );
             w.log_event("tcp.listen", &format!("{addr}"));
@@ -1135,12 +1137,26 @@ impl TcpListener {
             world::with(|w| {
                 let l = w.net.listeners.get_mut(&id).expect("listener gone");
                 if let Some((conn, peer)) = l.queue.pop_front() {
+                    l.accepts += 1;
+                    let attempt = l.accepts;
                     let label = w
                         .net
                         .conns
                         .get(&conn)
                         .map_or_else(String::new, |c| c.label.clone());
-                    let fault = w.choose("tcp.accept_error", &label, 2);
+                    let fault = w.choose("tcp.accept_error", &format!("{label}#a{attempt}"), 3);
+                    if fault == 2 {
+                        // the process is out of descriptors (EMFILE) or memory for a
+                        // moment: the call fails, the connection stays in the backlog
+                        w.bump("fired.tcp.accept_error_backlog_kept");
+                        w.log_event("tcp.accept_error", &format!("{label} (kept)"));
+                        let l = w.net.listeners.get_mut(&id).expect("listener gone");
+                        l.queue.push_front((conn, peer));
+                        return Poll::Ready(Err(io::Error::new(
+                            io::ErrorKind::Other,
+                            "too many open files",
+                        )));
+                    }
                     if fault == 1 {
                         w.bump("fired.tcp.accept_error");
                         w.log_event("tcp.accept_error", &label);
